@@ -44,6 +44,14 @@ def run_check(prop: str, tier: str, repo: str, quiet=False) -> int:
         sys.stderr.write(tb)
         rep.error('internal error in checker: ' +
                   tb.strip().splitlines()[-1])
+    if eng is not None:
+        try:
+            rep.gate(eng.p)
+        except Exception:
+            tb = traceback.format_exc()
+            sys.stderr.write(tb)
+            rep.error('internal error in the idiom gate: ' +
+                      tb.strip().splitlines()[-1])
     return rep.finish(eng.r if eng is not None else None)
 
 
